@@ -75,6 +75,8 @@ func runC19(p *core.Prog, r *core.Report, tier string) {
 			getters = append(getters, f)
 		} else if loopPathPhi(f) != nil {
 			loopGetters = append(loopGetters, f)
+		} else if ph, _ := loopIndexPhi(f); ph != nil {
+			loopGetters = append(loopGetters, f)
 		} else if j, _ := prefixWalk(f); j != nil {
 			walkGetters = append(walkGetters, f)
 		}
@@ -706,10 +708,33 @@ func loopPathPhi(f *ssa.Function) *ssa.Phi {
 func checkHierarchicalLoop(p *core.Prog, r *core.Report, ds *core.Describer, f *ssa.Function) {
 	base := "util." + f.Name()
 	path := loopPathPhi(f)
+	// the index-carried form: `for end := len(path); end > 0; end = strings.LastIndex(path[:end], ".")` — the current
+	// prefix is path[:end]
+	var endPhi *ssa.Phi
+	var pathParam *ssa.Parameter
+	if path == nil {
+		endPhi, pathParam = loopIndexPhi(f)
+	}
+	isCur := func(v ssa.Value) bool {
+		if path != nil {
+			return v == ssa.Value(path)
+		}
+		return isPrefixUpTo(v, pathParam, endPhi)
+	}
+	curText := ""
+	if path != nil {
+		curText = ds.D(path).String()
+	} else {
+		core.EachInstr(f, func(in ssa.Instruction) {
+			if sl, ok := in.(*ssa.Slice); ok && isCur(sl) && curText == "" {
+				curText = ds.D(sl).String()
+			}
+		})
+	}
 	// the only way the variable changes: path[0:LastIndex(path, ".")]
 	var lastIndex *ssa.Call
 	core.EachInstr(f, func(in ssa.Instruction) {
-		if c, ok := in.(*ssa.Call); ok && c.Call.StaticCallee() != nil && c.Call.StaticCallee().Pkg != nil && c.Call.StaticCallee().Pkg.Pkg.Path() == "strings" && c.Call.StaticCallee().Name() == "LastIndex" && c.Call.Args[0] == ssa.Value(path) {
+		if c, ok := in.(*ssa.Call); ok && c.Call.StaticCallee() != nil && c.Call.StaticCallee().Pkg != nil && c.Call.StaticCallee().Pkg.Pkg.Path() == "strings" && c.Call.StaticCallee().Name() == "LastIndex" && isCur(c.Call.Args[0]) {
 			if s, ok := constString(c.Call.Args[1]); ok && s == "." {
 				lastIndex = c
 			}
@@ -719,7 +744,25 @@ func checkHierarchicalLoop(p *core.Prog, r *core.Report, ds *core.Describer, f *
 	if lastIndex == nil {
 		return
 	}
-	for i, e := range path.Edges {
+	if endPhi != nil {
+		// every value of the index is len(path) (the whole path, at the start) or the position of the last period of
+		// the current prefix
+		for i, e := range endPhi.Edges {
+			okStep := e == ssa.Value(lastIndex)
+			if c, isCall := e.(*ssa.Call); isCall {
+				if b, isB := c.Call.Value.(*ssa.Builtin); isB && b.Name() == "len" && len(c.Call.Args) == 1 && c.Call.Args[0] == ssa.Value(pathParam) {
+					okStep = true
+				}
+			}
+			r.Check(okStep, "C19.4", fmt.Sprintf("%s|step#%d|shortened-path", base, i+1), p.Pos(f.Pos()),
+				"each step continues with path[:LastIndex(path[:end], \".\")]", "a step of the loop continues with the prefix up to "+ds.D(e).String()+", expected len(path) at the start and strings.LastIndex(path[:end], \".\") afterwards")
+		}
+	}
+	var pathEdges []ssa.Value
+	if path != nil {
+		pathEdges = path.Edges
+	}
+	for i, e := range pathEdges {
 		if _, ok := e.(*ssa.Parameter); ok {
 			continue
 		}
@@ -768,7 +811,7 @@ func checkHierarchicalLoop(p *core.Prog, r *core.Report, ds *core.Describer, f *
 			return
 		}
 		d := ds.D(c.Call.Args[1])
-		if d.Kind != "varargs" || len(d.Args) == 0 || (d.Args[0].Val != ssa.Value(path) && d.Args[0].String() != ds.D(path).String()) {
+		if d.Kind != "varargs" || len(d.Args) == 0 || (!isCur(d.Args[0].Val) && d.Args[0].String() != curText) {
 			return
 		}
 		keyCall = c
@@ -852,7 +895,15 @@ func checkHierarchicalLoop(p *core.Prog, r *core.Report, ds *core.Describer, f *
 		if c.Op == "" || c.X == nil || c.Y == nil {
 			return -1
 		}
-		if c.X.Val == ssa.Value(path) || c.Y.Val == ssa.Value(path) {
+		if endPhi != nil && c.X.Val == ssa.Value(endPhi) && c.Y.Kind == "const" && c.Y.Name == "0" {
+			// the loop runs while end > 0: it is left with end <= 0 (no period left: -1; an empty prefix: 0)
+			for e := 0; e < 2; e++ {
+				if rel := c.RelOnEdge(e); rel == "<=" {
+					return e
+				}
+			}
+		}
+		if path != nil && (c.X.Val == ssa.Value(path) || c.Y.Val == ssa.Value(path)) {
 			k := c.Y
 			if c.Y.Val == ssa.Value(path) {
 				k = c.X
@@ -1487,4 +1538,66 @@ func wellFormedPathFormat(format string) bool {
 	}
 	rest := strings.ReplaceAll(format, "%s", "x")
 	return !strings.Contains(rest, "%")
+}
+
+// loopIndexPhi recognises the index-carried iterative getter: an integer variable that starts as len(P) for a string
+// parameter P and is replaced, around a loop, by strings.LastIndex(P[:end], "."). Returns the variable and P.
+func loopIndexPhi(f *ssa.Function) (*ssa.Phi, *ssa.Parameter) {
+	var out *ssa.Phi
+	var prm *ssa.Parameter
+	core.EachInstr(f, func(in ssa.Instruction) {
+		phi, ok := in.(*ssa.Phi)
+		if !ok || out != nil {
+			return
+		}
+		if b, ok := phi.Type().Underlying().(*types.Basic); !ok || b.Info()&types.IsInteger == 0 {
+			return
+		}
+		var fromLen *ssa.Parameter
+		fromLast := false
+		for _, e := range phi.Edges {
+			c, ok := e.(*ssa.Call)
+			if !ok {
+				continue
+			}
+			if b, isB := c.Call.Value.(*ssa.Builtin); isB && b.Name() == "len" && len(c.Call.Args) == 1 {
+				if q, ok := c.Call.Args[0].(*ssa.Parameter); ok {
+					if bt, ok := q.Type().Underlying().(*types.Basic); ok && bt.Kind() == types.String {
+						fromLen = q
+					}
+				}
+			}
+		}
+		if fromLen == nil {
+			return
+		}
+		for _, e := range phi.Edges {
+			c, ok := e.(*ssa.Call)
+			if !ok || c.Call.StaticCallee() == nil || c.Call.StaticCallee().Pkg == nil || c.Call.StaticCallee().Pkg.Pkg.Path() != "strings" || c.Call.StaticCallee().Name() != "LastIndex" {
+				continue
+			}
+			if isPrefixUpTo(c.Call.Args[0], fromLen, phi) {
+				fromLast = true
+			}
+		}
+		if fromLast {
+			out, prm = phi, fromLen
+		}
+	})
+	return out, prm
+}
+
+// isPrefixUpTo: v is P[:end] (or P[0:end]).
+func isPrefixUpTo(v ssa.Value, prm *ssa.Parameter, end *ssa.Phi) bool {
+	sl, ok := v.(*ssa.Slice)
+	if !ok || prm == nil || end == nil || sl.X != ssa.Value(prm) || sl.High != ssa.Value(end) {
+		return false
+	}
+	if sl.Low != nil {
+		c, ok := sl.Low.(*ssa.Const)
+		if !ok || c.Value == nil || c.Int64() != 0 {
+			return false
+		}
+	}
+	return true
 }
